@@ -219,9 +219,70 @@ fn directed_deadline_race(rng: &mut Rng, out: &mut Out, token: bool) {
     let _ = blocked.join();
 }
 
+/// Directed schedule for "the emptiness check and the wait are one critical section": a timed
+/// consumer is released through a flag and a single element is pushed at a seeded instant
+/// around its entry into `pop_timeout`. If the consumer looks at the queue, lets go of the mutex
+/// and only then starts to wait, a push in between wakes nobody and the element stays queued
+/// for the whole (long) timeout although a consumer is waiting for it.
+fn directed_entry_race(rng: &mut Rng, out: &mut Out) {
+    for attempt in 0..10 {
+        let q: Arc<MessagesQueue<u32>> = MessagesQueue::with_capacity(8);
+        let go = Arc::new(std::sync::atomic::AtomicBool::new(false));
+        let ready = Arc::new(AtomicUsize::new(0));
+        let (q1, g1, r1) = (q.clone(), go.clone(), ready.clone());
+        let timed = std::thread::spawn(move || {
+            r1.fetch_add(1, Ordering::SeqCst);
+            while !g1.load(Ordering::SeqCst) {
+                std::thread::sleep(Duration::from_micros(50));
+            }
+            q1.pop_timeout(Duration::from_secs(20))
+        });
+        while ready.load(Ordering::SeqCst) < 1 {
+            std::thread::sleep(Duration::from_millis(1));
+        }
+        go.store(true, Ordering::SeqCst);
+        // the consumer notices the flag within 50 us and needs a few dozen basic blocks (5 us
+        // each on the virtual clock) to get into its wait
+        std::thread::sleep(Duration::from_micros(rng.below(500) as u64));
+        let before = q.verif_snapshot();
+        q.push(7);
+        std::thread::sleep(Duration::from_secs(2));
+        let s = q.verif_snapshot();
+        out.eval(format!("entry-race|waiting_at_push{}|attempt{}", before.blocked_pop_timeout, attempt.min(1)));
+        out.count("entry_race_attempts", 1);
+        if before.blocked_pop_timeout == 0 {
+            out.count("entry_race_pushes_before_the_consumer_waited", 1);
+        }
+        if s.elems > 0 && s.blocked_pop_timeout > 0 {
+            out.violation(
+                "C07/miri/queue/element-queued-while-timed-receiver-blocked",
+                "an element pushed while a consumer was entering pop_timeout(20 s) is still queued two virtual seconds later and the consumer is still waiting".to_string(),
+                format!("at push {:?}, two seconds later {:?}", before, s),
+            );
+        }
+        loop {
+            let s = q.verif_snapshot();
+            if s.blocked_pop_timeout == 0 || timed.is_finished() {
+                break;
+            }
+            q.unblock();
+            std::thread::sleep(Duration::from_millis(1));
+        }
+        let _ = timed.join();
+        if !out.violations.is_empty() {
+            break;
+        }
+    }
+    if out.samples.is_empty() {
+        out.samples.push("entry race: 10 attempts, a push at a seeded instant around the consumer's entry into pop_timeout".to_string());
+    }
+}
+
 fn scenario_queue(rng: &mut Rng, out: &mut Out) {
-    if rng.below(2) == 0 {
-        return directed_deadline_race(rng, out, false);
+    match rng.below(3) {
+        0 => return directed_deadline_race(rng, out, false),
+        1 => return directed_entry_race(rng, out),
+        _ => {}
     }
     let q: Arc<MessagesQueue<u32>> = MessagesQueue::with_capacity(8);
     // directed variant (half of the runs): one consumer blocked in pop, one timed consumer with
